@@ -599,6 +599,7 @@ type c14Env struct {
 	seen   map[string]bool
 	canary string
 	schema string
+	capped map[string]int
 }
 
 func (e *c14Env) exec(q string, args ...any) {
@@ -742,6 +743,22 @@ func (e *c14Env) fail(class, what, input, got, want string) {
 	e.fails.Write(verifh.Failure{Class: class, What: what, Input: input, Got: got, Want: want})
 }
 
+// failCapped reports at most two failures per key (the malformed streams: one defect accepted once is accepted
+// in every shape that carries it); the rest is counted.
+func (e *c14Env) failCapped(key, class, what, input, got, want string) {
+	if e.capped == nil {
+		e.capped = map[string]int{}
+	}
+
+	if e.capped[key]++; e.capped[key] > 2 {
+		e.stats.Inc("failures_not_listed")
+
+		return
+	}
+
+	e.fail(class, what, input, got, want)
+}
+
 func (e *c14Env) corr(in, impl, desc string) {
 	e.stats.Inc("corr_lines")
 	e.cases.Write(verifh.Case{In: in, Impl: impl, Desc: desc})
@@ -800,6 +817,7 @@ type c14Req struct {
 	Query   map[string][]string `json:"query,omitempty"`
 	Body    string              `json:"body,omitempty"`
 	Ops     []defs.TXOperation  `json:"ops,omitempty"`
+	Defect  string              `json:"defect,omitempty"` // the filter is malformed by construction: id of its structural defect
 	expr    *c14Expr            // filter with a known meaning (nil: none, or hostile)
 	hostile bool                // raw hostile filter text: only the safety oracles and the guard apply
 	sortIDs bool                // sort=id with paging: the exact row list is checked
@@ -1006,6 +1024,15 @@ func (e *c14Env) run(rq *c14Req) {
 
 	if schemaChanged {
 		return // the tables were rebuilt: the harness's copy of t1 no longer describes the database
+	}
+
+	// O5: a filter with a structural defect is never accepted
+	if rq.Defect != "" && status == http.StatusOK {
+		e.failCapped("H"+rq.Defect, "malformed-filter-accepted", "a handler accepted a filter with a structural defect ("+rq.Defect+")", input, string(body), "an error status")
+	}
+
+	if rq.Defect != "" {
+		e.stats.Inc("malformed_requests")
 	}
 
 	e.meaning(rq, status, body, input)
@@ -1817,6 +1844,359 @@ func c14Mutate(r *rand.Rand, s string) string {
 	return string(rs)
 }
 
+// ---------------------------------------------------------------- structurally malformed filters
+//
+// A filter that is malformed BY CONSTRUCTION: a well-formed expression of the documented grammar
+// (OP(operand,...) with EQ LT LE GT GE taking two operands, NOT one, AND OR two or more) in which exactly one
+// operand carries one structural defect -- an operator with too many / too few / no operands, a missing or an
+// extra parenthesis, a dangling comma, a missing or unknown operator name, a sign before something that is not a
+// number, a token that is no term, text after a complete operand.  The defective operand is placed at EVERY position
+// of the operand lists around it (first, middle, last; followed by further well-formed operands or not), nested
+// up to three levels, and the filter may begin with a quoted term that holds a backslash-quote (one token for the
+// filter tokenizer; a closed literal followed by live SQL for SQLite, should the raw text ever reach a statement).
+// Direct oracle (no model): no such filter is accepted by any builder or handler; and when one is, the statement
+// goes through the same safety oracles as every other (guard filter, canary, lexing policy).
+
+var c14Defects = []string{"not-extra", "not-none", "cmp-one", "cmp-three", "cmp-none", "list-one", "list-none", "no-close", "extra-close",
+	"no-open", "comma-trail", "comma-lead", "comma-double", "no-op", "bad-op", "signed-term", "special-term", "stray-text", "has-nocomma"}
+
+// c14QuotedTerm is a quoted term with a backslash-quote inside, followed (inside the term) by text that is live SQL
+// for a reader that takes the backslash-quote as the end of the literal.
+func c14QuotedTerm(r *rand.Rand) string {
+	q := []string{"'", "'", "'", "\""}[r.Intn(4)]
+	head := []string{"a", "", "x y", "tom"}[r.Intn(4)]
+	live := []string{" OR 1=1) OR 1=1 /*", " OR 1=1 --", "); DELETE FROM canary /*", ") OR 1=1 /*", " OR 1=1) OR (" + q + q + "=" + q,
+		") UNION SELECT secret,n,n,n,n FROM canary /*", ";DROP TABLE canary;--", " OR 1=1 /*", ""}[r.Intn(9)]
+
+	return q + head + `\` + q + live + q
+}
+
+func c14BadOperand(r *rand.Rand, good func() string) (string, string) {
+	cmp := []string{"EQ", "LT", "LE", "GT", "GE", "eq"}[r.Intn(6)]
+	list := []string{"AND", "OR", "and", "or"}[r.Intn(4)]
+	d := c14Defects[r.Intn(len(c14Defects))]
+	g := good() // always OP(...)
+
+	switch d {
+	case "not-extra":
+		s := "NOT(" + g
+
+		for i, n := 0, 1+r.Intn(2); i < n; i++ {
+			s += []string{",", ", "}[r.Intn(2)] + good()
+		}
+
+		return s + ")", d
+	case "not-none":
+		return "NOT()", d
+	case "cmp-one":
+		return cmp + "(" + []string{"id", "1", `"a"`, g}[r.Intn(4)] + ")", d
+	case "cmp-three":
+		return cmp + "(" + []string{"id,1,2", "name,\"a\",\"b\"", "id,1," + g, "id," + g + "," + good()}[r.Intn(4)] + ")", d
+	case "cmp-none":
+		return cmp + "()", d
+	case "list-one":
+		return list + "(" + g + ")", d
+	case "list-none":
+		return list + "()", d
+	case "no-close":
+		return g[:len(g)-1], d
+	case "extra-close":
+		return g + ")", d
+	case "no-open":
+		return strings.Replace(g, "(", " ", 1), d
+	case "comma-trail":
+		return g[:len(g)-1] + ",)", d
+	case "comma-lead":
+		return strings.Replace(g, "(", "(,", 1), d
+	case "comma-double":
+		return strings.Replace(g, ",", ",,", 1), d
+	case "no-op":
+		return "(" + []string{"id,1", g + "," + good(), g}[r.Intn(3)] + ")", d
+	case "bad-op":
+		return []string{"FAUX", "XOR", "IN", "LIKE", "NE"}[r.Intn(5)] + "(" + []string{"id,1", g + "," + good()}[r.Intn(2)] + ")", d
+	case "signed-term":
+		return []string{"-name", "+name", `-"1 OR 1=1"`, "-(1)", "- -1", "-true", `-"1) OR 1=1 --"`, "-'a'"}[r.Intn(8)], d
+	case "special-term":
+		return []string{"@", "*", "<=", "=", "(", ")", "1=1", "id=1", "1 OR 1=1", "name id", "1 1"}[r.Intn(11)], d
+	case "stray-text":
+		return g + []string{" OR 1=1", " garbage", " 1", " (", " " + good()}[r.Intn(5)], d
+	}
+
+	return []string{"HAS", "CONTAINS", "HASALL", "hasany"}[r.Intn(4)] + "(name" + []string{` "a")`, `,"a" "b")`, `,"a" x)`, `,"a",)`, `,,"a")`}[r.Intn(5)], "has-nocomma"
+}
+
+// c14Embed makes s one operand of a well-formed operator; in a list every position is taken in turn.
+func c14Embed(r *rand.Rand, s string, good func() string) string {
+	cmp := []string{"EQ", "LT", "LE", "GT", "GE"}[r.Intn(5)]
+	sep := func() string { return []string{",", ", ", " , "}[r.Intn(3)] }
+
+	switch r.Intn(10) {
+	case 0:
+		return []string{"NOT(", "not("}[r.Intn(2)] + s + ")"
+	case 1:
+		return cmp + "(" + s + sep() + []string{"1", `"a"`, "id"}[r.Intn(3)] + ")"
+	case 2:
+		return cmp + "(" + []string{"id", "name"}[r.Intn(2)] + sep() + s + ")"
+	case 3: // the HAS family: the term, or a value with well-formed values before and / or after it
+		w := [][2]string{{"", `,"a","b")`}, {"name,", `,"b")`}, {"name,", `,"b","c")`}, {`name,"a",`, ")"}, {`name,"a",`, `,"c")`}}[r.Intn(5)]
+
+		return []string{"HAS", "CONTAINSALL", "hasany"}[r.Intn(3)] + "(" + w[0] + s + w[1]
+	}
+
+	n := 2 + r.Intn(3)
+	p := r.Intn(n)
+	parts := make([]string, n)
+
+	for i := range parts {
+		if parts[i] = s; i != p {
+			parts[i] = good()
+		}
+	}
+
+	out := []string{"AND", "OR", "and", "or"}[r.Intn(4)] + "("
+
+	for i, part := range parts {
+		if i > 0 {
+			out += sep()
+		}
+
+		out += part
+	}
+
+	return out + ")"
+}
+
+func (e *c14Expr) hasNullMarker() bool {
+	if v, ok := e.val.(string); ok && (v == "." || v == "nil") {
+		return true
+	}
+
+	for _, a := range e.args {
+		if a.hasNullMarker() {
+			return true
+		}
+	}
+
+	return false
+}
+
+// c14MalformedFilter returns a filter that is malformed by construction, and the id of its defect.
+func c14MalformedFilter(r *rand.Rand) (string, string) {
+	// the well-formed operands stay inside the grammar the oracle reasons about: the implementation reads a string
+	// constant spelled "." as the NULL marker ".nil" and drops the token after it (EQ(name,".") is refused for a missing
+	// parenthesis), and any token before one spelled "nil" -- the string "nil" too -- as NULL (EQ(name,,"nil") is accepted
+	// as "name" = NULL): quirks of the filter's meaning, outside C14, by which a second defect repairs the first
+	good := func() string {
+		for {
+			if x := c14GenExpr(r, 1); !x.hasNullMarker() {
+				return x.render(r)
+			}
+		}
+	}
+	s, defect := c14BadOperand(r, good)
+
+	for l := r.Intn(4); l > 0; l-- {
+		s = c14Embed(r, s, good)
+	}
+
+	// a second defect that cannot cancel the first: one closing parenthesis fewer, anywhere, in a filter whose
+	// parentheses balance so far (or lack one already) -- e.g. NOT(x, y without its own ")" among further operands
+	if !strings.Contains("|extra-close|no-open|special-term|stray-text|", "|"+defect+"|") && r.Intn(3) == 0 {
+		at := []int{}
+
+		for i := range s {
+			if s[i] == ')' {
+				at = append(at, i)
+			}
+		}
+
+		if len(at) > 0 {
+			i := at[r.Intn(len(at))]
+			s = s[:i] + s[i+1:]
+			defect += "+no-close"
+		}
+	}
+
+	// further clauses of the same filter: a quoted term with a backslash-quote first, well-formed clauses around
+	if r.Intn(4) == 0 {
+		s = good() + "," + s
+	}
+
+	if r.Intn(4) == 0 {
+		s = s + "," + good()
+	}
+
+	if r.Intn(3) == 0 {
+		s = c14QuotedTerm(r) + []string{",", ", "}[r.Intn(2)] + s
+	}
+
+	return s, defect
+}
+
+const c14Guard = "EQ(id,-424242)"
+
+// malformedGen: the malformed filters straight into the builders.
+func (e *c14Env) malformedGen(r *rand.Rand, n int) {
+	e.reset(r)
+
+	count := func(table string) int {
+		var c int
+		if err := e.h.QueryRow(`SELECT count(*) FROM ` + table).Scan(&c); err != nil {
+			return -1
+		}
+
+		return c
+	}
+
+	for i := 0; i < n; i++ {
+		f, defect := c14MalformedFilter(r)
+		filters := []string{f}
+
+		switch r.Intn(4) {
+		case 0:
+			filters = []string{c14Guard, f}
+		case 1:
+			filters = []string{f, c14Guard}
+		case 2:
+			filters = []string{c14Guard, f, c14GenExpr(r, 1).render(r)}
+		}
+
+		inb, _ := json.Marshal(map[string]any{"builder": "WhereClause", "filters": filters, "defect": defect})
+		input := string(inb)
+
+		e.stats.Inc("malformed_gen_inputs")
+		e.stats.Inc("defect_" + defect)
+
+		if !e.seen["m\x00"+f] {
+			e.seen["m\x00"+f] = true
+			e.stats.Inc("distinct_nontrivial")
+		}
+
+		where, err := parsing.WhereClause(filters)
+		if err == nil {
+			e.failCapped("W"+defect, "malformed-filter-accepted", "WhereClause accepted a filter with a structural defect ("+defect+")", input, where, "an error")
+		}
+
+		fl, okf := c14Filters(filters)
+		if !okf {
+			continue
+		}
+
+		e.corr("where "+fl, c14OkText(where, err), "WhereClause (malformed "+defect+")")
+
+		u := &url.URL{Scheme: "http", Host: "localhost", Path: "/tables/t1/rows"}
+		verb := []string{"SELECT", "DELETE"}[r.Intn(2)]
+		s, err := parsing.FormSelectorDeleteQuery(u, filters, "", "t1", "admin", verb, defs.SqliteProvider)
+		e.corr(fmt.Sprintf("seldel %s %s - %s ~ n a", verb[:1], verifh.Hex("t1"), fl), c14OkText(s, err), "FormSelectorDeleteQuery (malformed "+defect+")")
+
+		if err != nil {
+			continue
+		}
+
+		// accepted: the statement goes through the lexing policy, and is run on the database with the canary table
+		inb, _ = json.Marshal(map[string]any{"builder": "FormSelectorDeleteQuery " + verb, "table": "t1", "filters": filters, "defect": defect})
+		input = string(inb)
+
+		e.failCapped("F"+defect, "malformed-filter-accepted", "FormSelectorDeleteQuery built a statement from a filter with a structural defect ("+defect+")", input, s, "an error")
+		e.stats.Inc("gen_statements")
+		e.stmts.Write(c14Stmt{Req: input, SQL: s, Table: "t1"})
+
+		guarded := len(filters) > 1
+		t1, canary := count("t1"), count("canary")
+
+		tx, terr := e.h.Begin()
+		if terr != nil {
+			e.t.Fatal(terr)
+		}
+
+		matched := -1
+
+		if verb == "DELETE" {
+			if res, xerr := tx.Exec(s); xerr == nil {
+				a, _ := res.RowsAffected()
+				matched = int(a)
+			}
+		} else if rows, qerr := tx.Query(s); qerr == nil {
+			for matched = 0; rows.Next(); matched++ {
+			}
+
+			rows.Close()
+		}
+
+		var t1After, canaryAfter int
+
+		_ = tx.QueryRow(`SELECT count(*) FROM t1`).Scan(&t1After)
+		_ = tx.QueryRow(`SELECT count(*) FROM canary`).Scan(&canaryAfter)
+		_ = tx.Rollback()
+
+		if got := e.dump(`SELECT type,name,tbl_name,sql FROM sqlite_master ORDER BY name`); got != e.schema {
+			e.fail("schema-modified", "the statement built from a malformed filter changed the database schema", input, s, e.schema)
+			e.restoreSchema(input)
+			e.reset(r)
+
+			continue
+		}
+
+		if canaryAfter != canary {
+			e.failCapped("C"+defect, "canary-modified", "the statement built from a malformed filter changed a table it did not address", input, s,
+				fmt.Sprintf("canary rows %d, got %d", canary, canaryAfter))
+		}
+
+		if guarded && (t1After != t1 || matched > 0) {
+			e.failCapped("G"+defect, "guard-bypassed", "the statement built from filters that include one that matches no row read or changed rows", input, s,
+				fmt.Sprintf("t1 rows %d -> %d, matched %d", t1, t1After, matched))
+		}
+	}
+}
+
+// malformedRequest: a request of every kind that takes a filter, with a malformed filter (or, one time in six, a
+// well-formed one whose string operand is a quoted term with a backslash-quote) next to the guard filter.
+func (e *c14Env) malformedRequest(r *rand.Rand) *c14Req {
+	rq := &c14Req{Table: "t1", Query: map[string][]string{}, hostile: true}
+
+	var f string
+
+	if r.Intn(6) == 0 {
+		head := []string{"EQ(name,", "OR(EQ(id,-1),EQ(note,", "NOT(GE(name,", ""}[r.Intn(4)]
+		f = head + c14QuotedTerm(r) + strings.Repeat(")", strings.Count(head, "("))
+
+		if r.Intn(3) == 0 {
+			f += ",EQ(id,1)"
+		}
+	} else {
+		f, rq.Defect = c14MalformedFilter(r)
+	}
+
+	filters := []string{c14Guard, f}
+	if r.Intn(2) == 0 {
+		filters = []string{f, c14Guard}
+	}
+
+	rq.Kind = []string{"get", "getabs", "delete", "patch", "patchabs", "tx"}[r.Intn(6)]
+
+	switch rq.Kind {
+	case "patch":
+		rq.Body = `{"note":"pwn"}`
+	case "patchabs":
+		rq.Body = `{"columns":[{"name":"note"}],"rows":[["pwn"]]}`
+	case "tx":
+		op := defs.TXOperation{Table: "t1", Filters: filters}
+		op.Opcode = []string{"select", "readrows", "delete", "update"}[r.Intn(4)]
+
+		if op.Opcode == "update" {
+			op.Data = map[string]any{"note": "pwn"}
+		}
+
+		rq.Ops = []defs.TXOperation{op}
+
+		return rq
+	}
+
+	rq.Query["filter"] = filters
+
+	return rq
+}
+
 func c14TableName(r *rand.Rand) string {
 	switch r.Intn(8) {
 	case 0:
@@ -2323,12 +2703,62 @@ func TestVerifC14(t *testing.T) {
 		)
 	}
 
+	// filters with a structural defect: a defective operand before, between and after well-formed ones, for every
+	// handler that takes a filter; two begin with a quoted term that holds a backslash-quote
+	for fi, f := range [][2]string{
+		{"not-extra", `OR(EQ(id,1),NOT(EQ(id,2),EQ(id,3)),EQ(id,4))`}, {"not-extra", `AND(NOT(EQ(id,2),EQ(id,3)),EQ(id,4))`},
+		{"not-extra+no-close", `'a\' OR 1=1) OR 1=1 /*', OR(EQ(id,-1),NOT(EQ(id,-1),EQ(id,-1))`}, {"not-extra+no-close", `AND(EQ(id,1),NOT(EQ(id,2),EQ(id,3),EQ(id,4))`},
+		{"signed-term", `AND(EQ(id,1),-name,EQ(id,2))`}, {"special-term", `OR(EQ(id,1),@,EQ(id,2))`}, {"cmp-one", `AND(EQ(id),EQ(id,2),EQ(id,3))`},
+		{"cmp-three", `OR(EQ(id,1),EQ(id,2,3),EQ(id,4))`}, {"list-one", `AND(EQ(id,1),OR(EQ(id,2)),EQ(id,3))`}, {"no-close", `AND(EQ(id,1),EQ(id,2),EQ(id,3)`},
+		{"extra-close", `AND(EQ(id,1)),EQ(id,2),EQ(id,3))`}, {"comma-trail", `AND(EQ(id,1),EQ(id,2),)`}, {"comma-double", `OR(EQ(id,1),,EQ(id,2))`},
+		{"not-extra+no-close", `'x\'); DELETE FROM canary /*', OR(EQ(id,1),NOT(EQ(id,2),EQ(id,3)),EQ(id,4)`}, {"has-nocomma", `AND(EQ(id,1),HAS(name,"a" "b"),EQ(id,2))`}, {"bad-op", `AND(EQ(id,1),FAUX(id,2),EQ(id,3))`},
+	} {
+		// the filters with two defects and a quoted first term go to every handler; the others to two handlers each
+		// (taken in turn), with the guard filter before or after
+		var batch []*c14Req
+
+		fs := [][]string{{guard, f[1]}, {f[1], guard}}[fi%2]
+
+		for _, kind := range []string{"get", "getabs", "delete"} {
+			batch = append(batch, &c14Req{Kind: kind, Table: "t1", Query: map[string][]string{"filter": fs}, hostile: true, Defect: f[0]})
+		}
+
+		batch = append(batch,
+			&c14Req{Kind: "patch", Table: "t1", Query: map[string][]string{"filter": fs}, Body: `{"note":"pwn"}`, hostile: true, Defect: f[0]},
+			&c14Req{Kind: "patchabs", Table: "t1", Query: map[string][]string{"filter": fs}, Body: `{"columns":[{"name":"note"}],"rows":[["pwn"]]}`, hostile: true, Defect: f[0]})
+
+		for _, opcode := range []string{"readrows", "delete", "update"} {
+			rq := tx(defs.TXOperation{Opcode: opcode, Table: "t1", Filters: fs})
+			rq.Defect = f[0]
+
+			if opcode == "update" {
+				rq.Ops[0].Data = map[string]any{"note": "pwn"}
+			}
+
+			batch = append(batch, rq)
+		}
+
+		if strings.HasPrefix(f[1], "'") {
+			corpus = append(corpus, batch...)
+		} else {
+			corpus = append(corpus, batch[(3*fi)%len(batch)], batch[(3*fi+4)%len(batch)])
+		}
+	}
+
 	for _, rq := range corpus {
 		e.reset(r)
 		e.run(rq)
 	}
 
 	e.genStream(verifh.Rand(141), verifh.N(1500, 12000))
+	e.malformedGen(verifh.Rand(143), verifh.N(2500, 20000))
+
+	rm := verifh.Rand(144)
+
+	for i, n := 0, verifh.N(80, 1500); i < n; i++ {
+		e.reset(rm)
+		e.run(e.malformedRequest(rm))
+	}
 
 	rr := verifh.Rand(142)
 	n := verifh.N(1200, 9000)
